@@ -205,5 +205,18 @@ theorem qinv_step {p : Nat} {P P' : Pipe} (hpi : PInv P) (h : QInv p P) (hheld :
     refine ⟨h1, h2, h3, fun hl => ?_⟩
     rcases hl with hl | ⟨x, hl⟩ | ⟨x, hl⟩ <;> simp at hl
   | pCancel a => exact ⟨h1, h2, h3, h4⟩
+  | rTrunc u a b c =>
+    refine ⟨?_, h2, h3, h4⟩
+    simp only [subEnd] at h1 ⊢
+    rcases c with c | ⟨c | c, hcur⟩
+    · by_cases hu : u = 0
+      · simpa [c, hu] using h1
+      · simpa [c, hu] using h1
+    · simpa [c] using h1
+    · simp only [c, if_true, Pipe.cur] at h1 hcur ⊢
+      have hb := hpi.batchPos
+      have : min P.batch u = min P.batch P.unread := by omega
+      simp only [reduceCtorEq, false_and, if_false, if_true, this]
+      exact h1
 
 end Octo.JsonPipe
